@@ -25,6 +25,9 @@ async fn start_app(sc: &Value) -> Option<(u16, tokio::task::JoinHandle<()>)> {
     if let Some(s) = sc["secret"].as_str() {
         cfg["auth_secret"] = json!(s);
     }
+    if sc["adapters"].is_object() {
+        cfg["adapters"] = sc["adapters"].clone();
+    }
     if sc["proxy"].as_bool().unwrap_or(false) {
         cfg["proxy_protocol"] = json!({"allow_v1": sc["allowV1"].as_bool().unwrap_or(true), "allow_v2": sc["allowV2"].as_bool().unwrap_or(true)});
     }
@@ -164,6 +167,21 @@ async fn run_one(sc: &Value) -> Value {
                 res.push(json!({"hdr": c["hdr"], "src": c["src"], "outcome": o, "bytes": t.bytes_received}));
             }
             out["results"] = json!(res);
+        }
+        "C18app" => {
+            // the application's own wiring of discovery, filters and strategy: one real login with the host name of the case; the
+            // client CLAIMS another identity than the one the (fixed) authentication service vouches for
+            let mut t = Tcp::connect(addr, None).await.unwrap();
+            let o = login_to(&mut t, 2, sc["host"].as_str().unwrap_or("h"), 25565, "Claimed", 5, None, "success", Duration::from_millis(2500)).await;
+            out["reached"] = json!(o.reached);
+            out["loginName"] = json!(o.login_success.as_ref().map(|x| x.0.clone()).unwrap_or_default());
+            if o.login_success.is_some() {
+                let c = configuration(&mut t, true, true, Duration::from_millis(2500)).await;
+                out["end"] = c["end"].clone();
+                out["transfer"] = c["transfer"].clone();
+            } else {
+                out["end"] = json!("nologin");
+            }
         }
         "C13app" => {
             // one announced source address, connections at chosen moments against the configured limiter
